@@ -354,11 +354,11 @@ check("C05",
       rule="(A) every entry of the factory table + internals is fingerprinted through every accessor of its interface (nodes named by "
            "creation index), then the table is rebuilt 11 times with every other operand rotation in units of their own on the same "
            "Lexicon and every fingerprint is recomputed: byte-identical; generative rows pairwise distinct (4 quick / 12 thorough base "
-           "rotations). (B) EVERY ordered history of <= 4 (quick) / <= 5 (thorough) operations (one less under ASan) over a 22-operation alphabet, one per "
+           "rotations). (B) EVERY ordered history of <= 4 (quick) / <= 5 (thorough) operations (one less under ASan) over a 24-operation alphabet, one per "
            "storage mechanism (farm, tree, string pool, unified literal, symbol keyed on name+type, label of the same name, enumerators, parameters, bases, "
            "handlers, module units, pragma tokens, captures, using-designators, scope members, redeclaration, expression-list members, "
            "warehouse product with the warehouse destroyed and its storage scribbled, sub-region, class fields, block statements, "
-           "binding names): after EVERY step every node returned so far is re-read through every accessor -- identical, except that "
+           "binding names; another Lexicon building, looking up, substituting and printing a graph of its own and dying; the same and staying alive): after EVERY step every node returned so far is re-read through every accessor -- identical, except that "
            "a container the step added to may only have grown at its end (model vectors of member addresses), and generative "
            "constructors return addresses distinct from all live nodes. (C) 1100 (5000) additions per member-sequence kind interleaved "
            "with two other factories, re-observed at every 2^k-1, 2^k, 2^k+1; 70000 words through the string pool; 20000 (100000) tree "
